@@ -68,6 +68,30 @@ pub fn run(r: &mut Report) {
             }
         }
     }
+    // only the link directory itself is read for a step: a same-named link file lying in a sub-directory (an archived run, a
+    // delegation's directory) never replaces or joins the top-level one, whatever the sub-directory is called and wherever the
+    // file system lists it
+    {
+        let owner = key(1); let ka = key(2);
+        let strict = vec![ArtifactRule::Allow(VirtualTargetPath::new("good".into()).unwrap()), ArtifactRule::Disallow(VirtualTargetPath::new("*".into()).unwrap())];
+        let lay = signed_layout(&layout(vec![step("a", 1, &[&ka], allow_all(), strict)], vec![], &[&ka], 30), &[&owner]);
+        let good = signed_link(&link("a", &[], &[("good", 1)]), &[&ka]);
+        let bad = signed_link(&link("a", &[], &[("leftover", 2)]), &[&ka]);
+        let mut seen: std::collections::BTreeMap<String, Vec<String>> = Default::default();
+        let names = ["Z", "0", "archive", "old", "zz", ".hidden", "A", "a", "b", "_", "~", "a.0000", "link", "sub/deeper"];
+        for top_is_good in [true, false] { for sub in names { for sub_first in [false, true] {
+            let d = tmpdir();
+            let subdir = d.path().join(sub);
+            if sub_first { std::fs::create_dir_all(&subdir).unwrap(); write_link(&subdir, "a", ka.key_id(), if top_is_good { &bad } else { &good }); }
+            write_link(d.path(), "a", ka.key_id(), if top_is_good { &good } else { &bad });
+            if !sub_first { std::fs::create_dir_all(&subdir).unwrap(); write_link(&subdir, "a", ka.key_id(), if top_is_good { &bad } else { &good }); }
+            let res = no_panic(|| in_toto_verify(&lay, owner_keys(&[&owner]), d.path().to_str().unwrap(), None).is_ok());
+            seen.entry(format!("top-level link {}: {:?}", if top_is_good { "conforming" } else { "violating" }, res)).or_default().push(sub.to_string());
+        } } }
+        let ok = seen.len() == 2 && seen.contains_key("top-level link conforming: Ok(true)") && seen.contains_key("top-level link violating: Ok(false)");
+        r.case("same-named-link-in-a-sub-directory", json!({"sub_directories": names, "creation_orders": 2}), "the verdict is that of the top-level link, for every sub-directory name",
+               format!("{:?}", seen.iter().map(|(k, v)| format!("{} x{}", k, v.len())).collect::<Vec<_>>()), ok);
+    }
     let owner = key(1);
     let ks = [key(2), key(3), key(4), key(5)];
     // threshold 1, four valid authorised links that differ in their products
